@@ -582,6 +582,11 @@ fn c18z(twins: &'static [Twin], out: Option<String>, only: Option<u32>, only_pla
             }
         }
         let has = |x: &str| t.tags.split(',').any(|y| y == x);
+        if has("sp:evaluated_during_unwinding") {
+            // this twin evaluates its invocation inside a `Drop` during a panic of its own: a second, injected panic there is a
+            // panic in a destructor during cleanup — the process aborts, whatever the macro does
+            continue;
+        }
         let threads = matches!(t.kind, "join_spawn" | "try_join_spawn" | "spawn" | "try_spawn");
         let sequential = matches!(t.kind, "join" | "try_join");
         let single_poller = matches!(t.kind, "join_async" | "try_join_async");
